@@ -27,6 +27,7 @@ type FuncAnalysis struct {
 	loadRes map[*ssa.UnOp]loadResolution
 	terms   map[ssa.Value]*Term
 	busy    map[ssa.Value]bool
+	idxTerm map[string]*Term // "[idx]" path component -> index term
 }
 
 type memDef struct {
@@ -60,7 +61,7 @@ func (e *Engine) FA(fn *ssa.Function) *FuncAnalysis {
 	}
 	fa := &FuncAnalysis{e: e, Fn: fn, ord: map[ssa.Instruction]int{}, idx: map[ssa.Instruction]int{},
 		defKey: map[string]int{}, defOf: map[ssa.Instruction][]int{}, capt: map[*ssa.Alloc]bool{}, inState: map[*ssa.BasicBlock]memState{},
-		loadRes: map[*ssa.UnOp]loadResolution{}, terms: map[ssa.Value]*Term{}, busy: map[ssa.Value]bool{}}
+		loadRes: map[*ssa.UnOp]loadResolution{}, terms: map[ssa.Value]*Term{}, busy: map[ssa.Value]bool{}, idxTerm: map[string]*Term{}}
 	e.fa[fn] = fa
 	n := 0
 	for _, b := range fn.Blocks {
@@ -144,13 +145,16 @@ func (fa *FuncAnalysis) addrPath(v ssa.Value) (root string, rootVal ssa.Value, p
 		}
 		return r, rv, append(append([]string{}, p...), "."+name)
 	case *ssa.IndexAddr:
+		it := fa.Term(x.Index)
+		comp := "[" + it.String() + "]"
+		fa.idxTerm[comp] = it
 		if _, isPtr := x.X.Type().Underlying().(*types.Pointer); isPtr {
 			r, rv, p := fa.addrPath(x.X)
-			return r, rv, append(append([]string{}, p...), "["+fa.Term(x.Index).String()+"]")
+			return r, rv, append(append([]string{}, p...), comp)
 		}
 		// slice value: rooted at the slice term
 		t := fa.Term(x.X)
-		return "ptr:" + t.String(), x.X, []string{"[" + fa.Term(x.Index).String() + "]"}
+		return "ptr:" + t.String(), x.X, []string{comp}
 	case *ssa.Global:
 		return "global:" + globalName(x), x, nil
 	}
@@ -564,19 +568,19 @@ func (fa *FuncAnalysis) loadTerm(u *ssa.UnOp) *Term {
 	if res.baseFound {
 		bt := fa.defsTerm(res.baseDefs)
 		rest := splitPath(pj[len(res.basePath):])
-		base = mkPath(bt, rest)
+		base = fa.mkPath(bt, rest)
 	} else {
 		// never written in this function before this point
 		switch rv := res.rootVal.(type) {
 		case *ssa.Alloc:
-			base = mkPath(&Term{Op: "zero", Name: rv.Comment + "@" + strconv.Itoa(fa.ord[rv])}, res.path)
+			base = fa.mkPath(&Term{Op: "zero", Name: rv.Comment + "@" + strconv.Itoa(fa.ord[rv])}, res.path)
 		case *ssa.Global:
-			base = mkPath(&Term{Op: "global", Name: globalName(rv)}, res.path)
+			base = fa.mkPath(&Term{Op: "global", Name: globalName(rv)}, res.path)
 		default:
 			if _, isSlice := res.rootVal.Type().Underlying().(*types.Slice); isSlice {
-				base = mkPath(fa.Term(res.rootVal), res.path)
+				base = fa.mkPath(fa.Term(res.rootVal), res.path)
 			} else {
-				base = mkPath(&Term{Op: "deref", Args: []*Term{fa.Term(res.rootVal)}}, res.path)
+				base = fa.mkPath(&Term{Op: "deref", Args: []*Term{fa.Term(res.rootVal)}}, res.path)
 			}
 		}
 	}
@@ -649,7 +653,7 @@ func (fa *FuncAnalysis) term0(v ssa.Value) *Term {
 		} else {
 			base = fa.Term(rv)
 		}
-		return &Term{Op: "unop", Name: "&", Args: []*Term{mkPath(base, p)}}
+		return &Term{Op: "unop", Name: "&", Args: []*Term{fa.mkPath(base, p)}}
 	case *ssa.IndexAddr:
 		return &Term{Op: "unop", Name: "&", Args: []*Term{{Op: "index", Args: []*Term{fa.Term(x.X), fa.Term(x.Index)}}}}
 	case *ssa.Field:
